@@ -25,7 +25,8 @@ REQUIRED = ["iff_checked:plurality", "iff_checked:approval", "iff_checked:superm
             "style_mean_rechecked_after_scoring_cards_lacking_the_contest", "card_count_revised_after_assertions_were_made",
             "margin_checked:contest_level_call_with_confirmed_assertions", "assertions_built_by_make_all_assertions",
             "candidate_names_contained_in_one_another", "contest_carries_a_reported_tally_when_assertions_are_made",
-            "tally_taken_together_with_a_contest_of_another_n_winners"]
+            "tally_taken_together_with_a_contest_of_another_n_winners", "ballots_in_pooled_batches_with_batch_means_set",
+            "margin_checked:sub_collection"]
 ASSUMPTIONS = ["shares f in {1/2,1/4,1/8} (f and 1/(2f) both dyadic) are exact in binary; inexact shares (2/3, 0.6) are only evaluated at a "
                "distance from the threshold that rounding cannot bridge", "a mark for a name that is not on the contest's "
                "candidate list (write-in) appears only on ballots with no mark for a listed candidate, so that no "
@@ -88,6 +89,7 @@ def gen_profile(rng, kind, stratum):
     if rng.random() < 0.3:
         prof["cards_first"] = nb + rng.choice((1, 3, nb))
     prof["via_make_all"] = rng.random() < 0.4
+    prof["pooled"] = rng.random() < 0.25
     if rng.random() < 0.3:
         order = sorted(cands, key=lambda c: (c not in winners, rng.random()))   # reported: winners ahead, whatever was cast
         prof["reported_tally"] = {c: 10 * (len(cands) - j) + rng.randint(0, 9) for j, c in enumerate(order)}
@@ -241,6 +243,18 @@ def run_case(prof, rec):
         rec.count("candidate_names_contained_in_one_another")
     if con._args_mutated:
         rec.count("observed:constructor_mutated_its_arguments")  # an observation, not a violation: the property is about the values
+    if prof.get("pooled"):
+        # some of the cards belong to pooled batches and the assorters know the batch means (ONEAudit): the assorter MEAN of
+        # a collection of ballots is still the mean of their own values, over whatever collection it is asked about
+        for i, cv in enumerate(cvrs):
+            if i % 3 != 2:
+                cv.pool, cv.tally_pool = True, ("p1", "p2")[i % 2]
+        for a in asns.values():
+            ok, _ = rec.guard(f"c02.call:set_tally_pool_means:{kind}", a.assorter.set_tally_pool_means, cvr_list=cvrs,
+                              use_style=use_style)
+            if not ok:
+                return
+        rec.count("ballots_in_pooled_batches_with_batch_means_set")
     with np.errstate(all="ignore"):
         means = {}
         for name, a in asns.items():
@@ -353,6 +367,21 @@ def run_case(prof, rec):
                                   {"assertion": name, "margin": a.margin, "two_mean_minus_1": want, "tally": dict(tally)})
                     return
 
+        # every other card only (a batch, a precinct): margin from that sub-collection's own tally vs its own mean
+        if kind != "supermajority" and len(cvrs) >= 4:
+            sub = cvrs[::2]
+            stal = oracle_tally({"cands": cands, "ballots": ballots[::2]})
+            for name, a in asns.items():
+                ok, ms = rec.guard(f"c02.call:mean:{kind}", a.assorter.mean, sub, False)
+                if not ok:
+                    return
+                rec.count("margin_checked:sub_collection")
+                want = (stal[a.winner] - stal[a.loser]) / len(sub)
+                if not math.isclose(2 * float(ms) - 1, want, rel_tol=1e-9, abs_tol=1e-12):
+                    rec.violation("c02.margin", f"{kind}:sub_collection:two_mean_minus_1_differs_from_its_tally_margin",
+                                  {"assertion": name, "two_mean_minus_1": 2 * float(ms) - 1, "tally_margin": want,
+                                   "cards": len(sub), "pooled_batches": bool(prof.get("pooled"))})
+                    return
         # (a) the oracle's raw tally: comparable when the assorter counts the same ballots (super-majority: no multi-mark ballot)
         tal_raw = oracle_tally(prof, with_write_ins=True)
         if len(tal_raw) > len(tal):
